@@ -39,6 +39,11 @@ def run(rep, tier):
     from . import dims
     dims.run(rep, F, "R6.7")
     centroid_tables(rep, F)
+    # the weights of areal parts are Area::unsigned_area / signed ring areas: the area rules of C05 are clauses of C06 too
+    from . import c05
+    from ..report import Alias
+    rep.rule("R6.10", "the areas used as weights: collection sums, Polygon signed area, the shoelace ring area, Rect = width*height, Triangle = half the edge determinants, unsigned = |signed| (C05 R5.1-R5.4)")
+    c05.area_kernels(Alias(rep, "R6.10"), F)
     from . import gt_tables
     gt_tables.run(rep, F, "R6.8", select={"Line::determinant", "Rect::center", "line_euclidean_length"})
 
